@@ -8,9 +8,16 @@ Open Scope N_scope.
    only the stale-trash-row defect produces; excluded by the bridge invariant, see refused_unchanged_l below) *)
 Definition put_on_recordless (s : st) (o : op) : bool :=
   match o with Put d _ _ => negb (has_rec s d) && memN d (loc s) | _ => false end.
-Lemma refused_unchanged_raw : forall s o s' e, put_on_recordless s o = false -> step s o = (s', Err e) -> s' = s.
+(* ... and a second one, which the invariant does NOT exclude: an ingest naming an id the datastore already knows (the copied file is
+   removed by the rollback although it may have replaced an artifact: /repo finding F-C01-reingest) *)
+Definition reingest_known (s : st) (o : op) : bool :=
+  match o with
+  | Ingest d1 d2 _ _ => has_rec s d1 || memN d1 (loc s) || (has_rec s d2 || memN d2 (loc s))
+  | _ => false
+  end.
+Lemma refused_unchanged_raw : forall s o s' e, put_on_recordless s o = false -> reingest_known s o = false -> step s o = (s', Err e) -> s' = s.
 Proof.
-  intros s o s' e G H. destruct o; simpl in H, G;
+  intros s o s' e G G' H. destruct o; simpl in H, G, G';
   repeat match type of H with
   | context [match ?x with _ => _ end] => destruct x eqn:?; simpl in H
   end; simpl in G; try congruence; try (inversion H; reflexivity).
@@ -133,9 +140,9 @@ Record wf (s : st) : Prop := {
 Lemma wf_init : wf init.
 Proof. constructor; simpl; intros; try contradiction; discriminate. Qed.
 
-Lemma refused_unchanged_l : forall s o s' e, wf s -> step s o = (s', Err e) -> s' = s.
+Lemma refused_unchanged_l : forall s o s' e, wf s -> reingest_known s o = false -> step s o = (s', Err e) -> s' = s.
 Proof.
-  intros s o s' e W H. apply (refused_unchanged_raw s o s' e); [| exact H].
+  intros s o s' e W K H. apply (refused_unchanged_raw s o s' e); [| exact K | exact H].
   destruct o; try reflexivity. simpl. destruct (memN d (loc s)) eqn:M; [| apply andb_false_r].
   apply memN_In in M. rewrite (w_loc_rec s W d M). reflexivity.
 Qed.
@@ -211,6 +218,25 @@ Proof.
   - simpl. intros [<- | H] H2; [| exact (D x H H2)]. rewrite (B d H2) in Hn. discriminate.
 Qed.
 
+Lemma wf_ds_trash : forall l s, wf s -> wf (ds_trash l s).
+Proof. intros l s W. unfold ds_trash. destruct (existsb _ l); [exact W | apply wf_trash_refs; exact W]. Qed.
+
+(* the datastore half of a two-ref ingest: two fresh ids get a location row and a records row each *)
+Lemma wf_ingest : forall s d1 d2 a rows fl, d1 <> d2 -> has_rec s d1 = false -> ~ In d1 (loc s) -> has_rec s d2 = false -> ~ In d2 (loc s) -> wf s ->
+  wf (mk (colls s) (chains s) rows (tags s) (calibs s) (d1 :: d2 :: loc s) (trash s) ((d1, a) :: (d2, a) :: recs s) fl).
+Proof.
+  intros s d1 d2 a rows fl Hne A1 B1 A2 B2 [A B C D].
+  set (s' := mk _ _ _ _ _ _ _ _ _).
+  assert (R : forall x, has_rec s' x = true <-> x = d1 \/ x = d2 \/ has_rec s x = true).
+  { intro x. unfold has_rec, s'. simpl. rewrite !orb_true_iff, !N.eqb_eq. split; intros [H | [H | H]]; auto. }
+  constructor; intro x.
+  - simpl. intros [<- | [<- | H]]; apply R; [left; reflexivity | right; left; reflexivity | right; right; exact (A x H)].
+  - intro H. change (In x (trash s)) in H. apply R. right. right. exact (B x H).
+  - rewrite R. simpl. intros [-> | [-> | H]]; [left; left; reflexivity | left; right; left; reflexivity |].
+    destruct (C x H) as [H1 | H1]; [left; right; right; exact H1 | right; exact H1].
+  - simpl. intros [<- | [<- | H]] H2; [rewrite (B d1 H2) in A1; discriminate | rewrite (B d2 H2) in A2; discriminate | exact (D x H H2)].
+Qed.
+
 Lemma remove_run_datastore : forall s r s', remove_run s r = inl s' -> loc s' = loc s /\ trash s' = trash s /\ recs s' = recs s /\ files s' = files s.
 Proof.
   intros s r s' H. unfold remove_run in H.
@@ -282,9 +308,17 @@ Proof.
       eapply wf_same_datastore; [exact E1 | exact E2 | exact E3 |]. apply wf_forget_refs; [| exact W].
       simpl in S. rewrite forallb_forall in S. intros d Hd. apply memN_false. apply negb_true_iff. exact (S d Hd).
   - (* ExtDelete *) eapply wf_same_datastore; [| | | exact W]; reflexivity.
-  - (* Trash *) apply wf_trash_refs. exact W.
+  - (* Trash *) apply wf_ds_trash. exact W.
   - (* EmptyTrash *) apply wf_empty_trash. exact W.
   - (* RegRemove *) unfold reg_remove. destruct (existsb _ _); simpl; [exact W |]. eapply wf_same_datastore; [| | | exact W]; reflexivity.
+  - (* Trash1 *) destruct (artifact_present s d); simpl; [apply wf_ds_trash |]; exact W.
+  - (* Ingest *) destruct (ctype s r) as [[] |]; simpl; try exact W.
+    destruct (d1 =? d2) eqn:E0; simpl; [exact W |]. destruct (negb _); simpl; [exact W |].
+    destruct (has_rec s d1 || memN d1 (loc s) || (has_rec s d2 || memN d2 (loc s))) eqn:E; simpl;
+      [eapply wf_same_datastore; [| | | exact W]; reflexivity |].
+    apply orb_false_iff in E. destruct E as [E1 E2]. apply orb_false_iff in E1, E2. destruct E1 as [A1 B1]. destruct E2 as [A2 B2].
+    apply N.eqb_neq in E0. apply memN_false in B1, B2.
+    apply (wf_ingest s d1 d2 (r, k)); assumption.
 Qed.
 
 (* all histories whose forget-steps are safe *)
